@@ -928,6 +928,9 @@ func run(c *vf.Ctx) {
 	c.Assume("Client.RetryBackoff is set (1 ns up to the limit, then 0 = documented stop; 1 h once the context is cancelled), so Retry-After on 429 replies is never slept on; poll replies in a non-final state carry a Retry-After date in the past")
 
 	w := &world{key: mkKey(c, "account"), newKey: mkKey(c, "new"), certKey: mkKey(c, "cert")}
+	if runNonceSchedules(c, w) {
+		return
+	}
 	all := ops()
 	byName := map[string]*opSpec{}
 	for _, o := range all {
